@@ -204,7 +204,7 @@ def _stats_after(T: ByteVec, st: dict):
 
 def new_stats():
     return {"aligned": 0, "split_sym": 0, "nested": 0, "overlap": 0, "fork": 0, "value_use": 0, "sym": 0,
-            "write_after_fork": 0, "write_after_value_use": 0}
+            "write_after_fork": 0, "write_after_value_use": 0, "value_use_aligned": 0}
 
 
 def valid(ops) -> bool:
@@ -310,7 +310,10 @@ def run_history(dom, init: str, ops, state_cls=None):
                 _, _, start = op
                 O, RO = env[oth], refs[oth]
                 st["value_use"] += 1
+                before = st["aligned"]
                 _stats_before_write(T, start, start + len(RO), st)
+                if st["aligned"] > before:
+                    st["value_use_aligned"] += 1
                 T.set_slice(start, start + len(RO), O)
                 ref_write(R, start, list(RO), zero)
             elif k == "av":
@@ -325,7 +328,23 @@ def run_history(dom, init: str, ops, state_cls=None):
             raise
         except Exception as e:  # noqa: BLE001 - any exception of the real code is a finding candidate
             raise OpError(p, op, e) from e
+    st["sym"] = int(any(_has_symbolic_chunk(v) for v in env.values() if v is not None))
     return env, refs, st
+
+
+def _has_symbolic_chunk(V) -> bool:
+    try:
+        stack, seen = list(V.chunks.values()), set()
+        while stack:
+            ch = stack.pop()
+            if isinstance(ch, SymbolicChunk):
+                return True
+            if isinstance(ch, ByteVec) and id(ch) not in seen:
+                seen.add(id(ch))
+                stack.extend(ch.chunks.values())
+    except Exception:
+        pass
+    return False
 
 
 # ---------------------------------------------------------------------------
@@ -372,7 +391,7 @@ def cat(bs: list):
 
 
 def word_offsets(n: int):
-    offs = {0, 1, 31, 32, 33, n - 33, n - 32, n - 31, n - 1, n, n + 1}
+    offs = {0, 1, 31, 32, 33, n - 32, n - 31, n - 1, n}
     return sorted(o for o in offs if o >= 0)
 
 
@@ -463,15 +482,20 @@ def observe(V: ByteVec, R: list, zero, name: str, extra_pass: bool = False):
 # operation alphabets (enumerated dimension; offsets sit around the chunk boundaries of the initial vectors)
 # ---------------------------------------------------------------------------
 def alphabet(level: str):
+    """deterministic, duplicate-free list of operations"""
+    return list(dict.fromkeys(_alphabet(level)))
+
+
+def _alphabet(level: str):
     ops = []
     if level == "small":
-        ops += [("sb", "A", 0, "c"), ("sb", "A", 33, "s"), ("sb", "A", 97, "h")]
+        ops += [("sb", "A", 33, "s"), ("sb", "A", 97, "h")]
         ops += [("sw", "A", 0, "s"), ("sw", "A", 32, "hc"), ("sw", "A", 33, "h"), ("sw", "A", 65, "s")]
         ops += [("ss", "A", 32, 32, "v"), ("ss", "A", 31, 2, "s"), ("ss", "A", 1, 64, "w"), ("ss", "A", 64, 33, "c"),
                 ("ss", "A", 0, 64, "s")]
-        ops += [("mc", "A", 33, 32, 32), ("mc", "A", 0, 1, 64), ("mc", "A", 32, 64, 32), ("mc", "A", 64, 63, 2)]
-        ops += [("ap", "A", "s"), ("ap", "A", "c3")]
-        ops += [("fk", "copy"), ("fk", "state"), ("fk", "slice", 32, 64), ("fk", "slice", 1, 98)]
+        ops += [("mc", "A", 33, 32, 32), ("mc", "A", 0, 1, 64), ("mc", "A", 32, 64, 32)]
+        ops += [("ap", "A", "s")]
+        ops += [("fk", "copy"), ("fk", "state"), ("fk", "slice", 32, 64)]
         ops += [("sv", "A", 32), ("av", "A"), ("sv", "B", 0)]
         ops += [("sb", "B", 0, "s"), ("sb", "B", 33, "c"), ("sw", "B", 1, "s"), ("ss", "B", 32, 32, "v"),
                 ("mc", "B", 1, 0, 32)]
@@ -483,7 +507,7 @@ def alphabet(level: str):
         ops += [("sb", "A", 1, "h"), ("sb", "A", 33, "hc")]
         ops += [("sw", "A", o, "s") for o in woff] + [("sw", "A", o, "hc") for o in (0, 32, 64)]
         ops += [("sw", "A", 33, "h"), ("sw", "A", 32, "b"), ("sw", "A", 2, "c"), ("sw", "A", 64, "cv")]
-        for s in (0, 1, 32, 33, 64, 96):
+        for s in (0, 1, 32, 33, 64):
             for n in (1, 32, 33):
                 ops += [("ss", "A", s, n, "s"), ("ss", "A", s, n, "v" if (s + n) % 2 else "w")]
             ops.append(("ss", "A", s, 32, "c"))
@@ -491,19 +515,19 @@ def alphabet(level: str):
                 ("ss", "A", 31, 34, "cv")]
         for d in (0, 1, 32, 64):
             for s in (0, 31, 32, 33):
-                for n in (1, 32, 33):
+                for n in (1, 33):
                     if d != s:
                         ops.append(("mc", "A", d, s, n))
-        ops += [("mc", "A", 32, 64, 32), ("mc", "A", 64, 32, 32), ("mc", "A", 96, 0, 96), ("mc", "A", 2, 5, 3)]
+        ops += [("mc", "A", 32, 64, 32), ("mc", "A", 64, 32, 32), ("mc", "A", 96, 0, 96), ("mc", "A", 2, 5, 3),
+                ("mc", "A", 33, 32, 32), ("mc", "A", 0, 1, 64)]
         ops += [("ap", "A", k) for k in ("s", "c3", "s8", "s24", "h", "v")]
         ops += [("fk", "copy"), ("fk", "state"), ("fk", "slice", 32, 64), ("fk", "slice", 1, 98),
                 ("fk", "getitem", 0, 32), ("fk", "fresh", 32), ("fk", "slice", 33, 63)]
         ops += [("sv", "A", 32), ("sv", "A", 0), ("sv", "A", 33), ("sv", "A", 64), ("av", "A"), ("sv", "B", 0),
                 ("av", "B")]
-        ops += [("sb", "B", 0, "s"), ("sb", "B", 33, "c"), ("sb", "B", 31, "s"), ("sw", "B", 0, "s"),
-                ("sw", "B", 1, "s"), ("sw", "B", 32, "hc"), ("ss", "B", 32, 32, "v"), ("ss", "B", 0, 32, "w"),
-                ("ss", "B", 1, 2, "s"), ("mc", "B", 1, 0, 32), ("mc", "B", 0, 1, 31), ("ap", "B", "s"),
-                ("sb", "B", 97, "s")]
+        ops += [("sb", "B", 0, "s"), ("sb", "B", 33, "c"), ("sw", "B", 0, "s"),
+                ("sw", "B", 1, "s"), ("ss", "B", 32, 32, "v"), ("ss", "B", 0, 32, "w"),
+                ("ss", "B", 1, 2, "s"), ("mc", "B", 1, 0, 32), ("ap", "B", "s")]
         return ops
     if level == "full":
         grid = [0, 1, 2, 4, 5, 6, 31, 32, 33, 34, 63, 64, 65, 95, 96, 97, 128, 129]
@@ -540,6 +564,40 @@ def alphabet(level: str):
                 if d != s:
                     ops += [("mc", "B", d, s, 32), ("mc", "B", d, s, 2)]
         ops += [("ap", "B", k) for k in ("s", "c3", "v")]
+        return ops
+    if level == "mid3":  # length-3 histories, thorough tier
+        ops = _alphabet("small")
+        ops += [("ss", "A", 33, 32, "s"), ("ss", "A", 0, 32, "n"), ("sb", "A", 32, "s"), ("sb", "A", 64, "hc"),
+                ("sw", "A", 64, "s"), ("sw", "A", 96, "c"), ("mc", "A", 1, 0, 33), ("mc", "A", 64, 0, 64),
+                ("fk", "fresh", 32), ("av", "B"), ("ss", "A", 2, 3, "v"), ("sw", "A", 32, "b")]
+        return ops
+    if level == "large":  # length-2 histories, thorough tier
+        grid = [0, 1, 2, 5, 31, 32, 33, 64, 65, 96, 97]
+        for o in grid:
+            ops += [("sb", "A", o, "s"), ("sb", "A", o, "c" if o % 2 else "hc")]
+            ops += [("sw", "A", o, "s"), ("sw", "A", o, "hc" if o % 2 else "c")]
+        ops += [("sb", "A", 33, "h"), ("sw", "A", 33, "h"), ("sw", "A", 32, "b"), ("sw", "A", 64, "cv"),
+                ("sw", "A", 1, "cb")]
+        for s in (0, 1, 2, 5, 31, 32, 33, 64, 96):
+            for n in (1, 3, 32, 33, 64):
+                ops += [("ss", "A", s, n, "s"), ("ss", "A", s, n, "v" if (s + n) % 2 else "w")]
+            ops.append(("ss", "A", s, 32, "c"))
+        ops += [("ss", "A", 32, 32, "n"), ("ss", "A", 0, 32, "n"), ("ss", "A", 5, 27, "cv"), ("ss", "A", 0, 96, "w")]
+        for d in (0, 1, 32, 33, 64):
+            for s in (0, 1, 31, 32, 33, 64):
+                for n in (1, 32, 33):
+                    if d != s:
+                        ops.append(("mc", "A", d, s, n))
+        ops += [("mc", "A", 96, 0, 96), ("mc", "A", 2, 5, 3), ("mc", "A", 5, 2, 27)]
+        ops += [("ap", "A", k) for k in ("s", "c3", "s8", "s24", "h", "v", "n")]
+        ops += [("fk", "copy"), ("fk", "state"), ("fk", "slice", 32, 64), ("fk", "slice", 1, 98),
+                ("fk", "getitem", 0, 32), ("fk", "fresh", 32), ("fk", "slice", 33, 63), ("fk", "getitem", 31, 65)]
+        ops += [("sv", "A", o) for o in (0, 1, 32, 33, 64, 96)] + [("av", "A"), ("sv", "B", 0), ("sv", "B", 1),
+                                                                   ("av", "B")]
+        ops += [("sb", "B", 0, "s"), ("sb", "B", 33, "c"), ("sb", "B", 31, "s"), ("sw", "B", 0, "s"),
+                ("sw", "B", 1, "s"), ("sw", "B", 32, "hc"), ("ss", "B", 32, 32, "v"), ("ss", "B", 0, 32, "w"),
+                ("ss", "B", 1, 2, "s"), ("mc", "B", 1, 0, 32), ("mc", "B", 0, 1, 31), ("ap", "B", "s"),
+                ("sb", "B", 97, "s"), ("ss", "B", 31, 2, "v"), ("sw", "B", 33, "s")]
         return ops
     if level == "tiny":  # length-4 histories
         ops += [("sb", "A", 33, "s"), ("sw", "A", 32, "s"), ("sw", "A", 33, "hc"), ("sw", "A", 65, "s")]
